@@ -29,6 +29,24 @@ def alias_rules(F, R, d):
     if not r or r[0] == 'discr':
         raise AnchorLost('%s: is_empty branch' % d.name)
     sb, empty_t, nonempty_t = r
+    # an alias-only PUBLISH with an unknown alias fails with TopicAliasInvalid and nothing else: no error is
+    # decided inside the alias block before the topic was looked at
+    alias_sw = None
+    for swb in sorted(b.dom.get(ebi, ())):
+        t_ = b.blocks[swb]['term']
+        if t_['k'] == 'switch' and swb in reg:
+            p_ = op_place(t_['discr'])
+            for (xb, xs, kind, x) in (b.whole_defs(p_['l']) if p_ else []):
+                if kind == 'assign' and x['rv']['k'] == 'discr' and 'topic_alias' in place_fields(x['rv']['place']):
+                    alias_sw = swb
+    if alias_sw is not None:
+        some_t = [tb for v_, tb in b.blocks[alias_sw]['term']['targets'] if v_ == 1]
+        some_t = some_t[0] if some_t else b.blocks[alias_sw]['term']['otherwise']
+        pre = b.reachable(some_t, avoid=[ebi])
+        errs_pre = [x for x, j_, s_ in agg_sites(b, r'^std::result::Result$', 'Err') if x in pre] + [x for x, t2 in b.calls() if x in pre and (callee_name(t2) or '').endswith('from_residual')]
+        viol_pre = [x for x, j_, s_ in agg_sites(b, r'error::SpecViolation$', None) if x in pre]
+        R.ob('C17.resolve', '%s|no-error-before-the-topic-is-examined' % d.name, not errs_pre and not viol_pre,
+             'the alias block raises an error before testing whether the topic is empty: an alias-only PUBLISH with an unknown alias is then reported with that error\'s (generic) reason instead of Topic Alias Invalid', b.loc((errs_pre or viol_pre or [ebi])[0]))
     # the alias test dominates: discriminant of Option<NonZero<u16>> topic_alias == Some
     # --- resolve
     gets = [(bi, t) for bi, t in b.calls_to(r'^std::collections::HashMap::<K, V, S, A>::get$') if bi in reg and 'aliases' in (call_recv_path(b, t, 0) or ())]
